@@ -14,7 +14,9 @@ package rt
 
 import (
 	"fmt"
+	"os"
 	"reflect"
+	"strconv"
 	"sync"
 )
 
@@ -33,6 +35,16 @@ type OpCtx struct {
 // cur is the context of the running task. Inline runs: set by BeginOp. Multi-task runs: switched by
 // the controller together with the baton.
 var cur *OpCtx
+
+func init() {
+	// self-test aid: run foreign code (the repository's own test-suite on the rewritten copy) under a fixed seeded
+	// map order, pools and scheduling untouched
+	if v := os.Getenv("VERIF_ORDER_SEED"); v != "" {
+		if n, err := strconv.ParseUint(v, 10, 64); err == nil {
+			cur = &OpCtx{OrderSeed: n}
+		}
+	}
+}
 
 //go:norace
 func curCtx() *OpCtx { return cur }
